@@ -2,3 +2,5 @@ pub mod envsim;
 pub mod envsim_driver;
 pub mod iosim;
 pub mod iosim_driver;
+pub mod rgsim;
+pub mod rgsim_driver;
